@@ -245,6 +245,47 @@ func checkC12(c *Ctx) int {
 		results = append(results, result{fmt.Sprintf("restarts-%d", h), d.events})
 		mu.Unlock()
 	})
+	// (a') instance ids across deletion and restart: create, delete (wait until the instance has
+	// left the repo), restart, create again - every id must be new
+	{
+		d := &idsDriver{c: c}
+		d.start(node.Config{})
+		for k := 0; k < c.pick(3, 8); k++ {
+			name := fmt.Sprintf("tmp%d", k)
+			r, err := d.n.HTTP("POST", "/api/repo/"+d.root+"/instance", []byte(fmt.Sprintf(`{"typename":"keyvalue","dataname":%q}`, name)))
+			must(err, "new instance")
+			if r.Status != 200 {
+				infra("new instance refused: %d %s", r.Status, r.Bytes())
+			}
+			d.recordInstance(name)
+			if k%2 == 0 {
+				// (sometimes a version is created in between, which persists the counters again)
+				must(d.n.Call("ds.deletedata", map[string]string{"UUID": d.root, "Name": name, "Passcode": ""}, nil), "delete instance")
+				deadline := time.Now().Add(20 * time.Second)
+				for {
+					ri, err := d.n.HTTP("GET", "/api/repo/"+d.root+"/info", nil)
+					must(err, "repo info")
+					if !strings.Contains(string(ri.Bytes()), `"`+name+`"`) {
+						break
+					}
+					if time.Now().After(deadline) {
+						infra("instance %s still listed 20 s after its deletion", name)
+					}
+					time.Sleep(5 * time.Millisecond)
+				}
+			}
+			d.restart(k%4 < 2)
+		}
+		r, err := d.n.HTTP("POST", "/api/repo/"+d.root+"/instance", []byte(`{"typename":"keyvalue","dataname":"last"}`))
+		must(err, "new instance")
+		if r.Status == 200 {
+			d.recordInstance("last")
+		}
+		mu.Lock()
+		results = append(results, result{"instance-delete-restart", d.events})
+		mu.Unlock()
+		c.DropNode(d.n)
+	}
 	// (b) crash immediately before / after each persistence write of the counters
 	ref := &idsDriver{c: c}
 	ref.start(node.Config{})
